@@ -96,6 +96,7 @@ fn main() {
             "c16" | "c16-stitched" => c16::replay(case),
             "c18" => c18::replay(case),
             "c15" | "c15-route" => c15::replay(case),
+            "c17-many" => c17::many_blocks_replays().into_iter().map(|(v, _)| v).collect(),
             "c09-large" => damage::replay_large(case),
             "c02-ids" => c02::high_id_cases().into_iter().map(|(v, _)| v).collect(),
             "c07-ids" => c07::high_id_cases().into_iter().map(|(v, _)| v).collect(),
